@@ -61,3 +61,20 @@ package combin
 //@ invariant forall(k, 0, i, 0 <= sub[k] && sub[k] < dims[k])
 //@ invariant old(idx) < tp(dims, 0, len(dims)) ==> idx < tp(dims, i, len(dims))
 //@ invariant old(idx) >= tp(dims, 0, len(dims)) ==> it == 0 && idx == old(idx)
+
+// Counting functions of the permutation index maps: factorial(a) is a!, NumPermutations(n, k)
+// is the falling factorial n*(n-1)*...*(n-k+1) (mathematical integers, see above).
+//@ spec rec fact(n int) int decreases n = ite(n <= 1, 1, n * fact(n-1))
+//@ spec rec rising(lo int, hi int) int decreases hi - lo + 1 = ite(hi < lo, 1, hi * rising(lo, hi-1))
+
+//@ func factorial props: C20
+//@ writes nothing
+//@ ensures result == fact(a)
+//@ loop 1: invariant 2 <= i && f == fact(i-1)
+
+//@ func NumPermutations props: C20
+//@ valid n >= 0 && k >= 0 && k <= n
+//@ panics iff !valid, before-writes
+//@ writes nothing
+//@ ensures result == rising(n-k+1, n)
+//@ loop 1: invariant n-k+1 <= i && p == rising(n-k+1, i-1)
